@@ -87,9 +87,9 @@ func (d *taxDef) rootTaxid() int {
 	return 0
 }
 
-// guarded runs f on its own goroutine: a panic or a captured log.Fatal (runtime.Goexit) inside the
+// guarded14 runs f on its own goroutine: a panic or a captured log.Fatal (runtime.Goexit) inside the
 // real code ends only that goroutine and is returned as text.
-func guarded(f func()) (problem string) {
+func guarded14(f func()) (problem string) {
 	done := make(chan string, 1)
 	go func() {
 		finished := false
@@ -140,7 +140,7 @@ func lastFatal14() []string {
 
 // buildAPI loads the taxonomy through the library API, nodes inserted in a seeded random order.
 func buildAPI(d *taxDef, rng *rand.Rand) (tx *obitax.Taxonomy, loaded int, problem string) {
-	problem = guarded(func() {
+	problem = guarded14(func() {
 		t := obitax.NewTaxonomy()
 		order := rng.Perm(d.n())
 		for _, i := range order {
@@ -207,7 +207,7 @@ func writeDump(dir string, d *taxDef, rng *rand.Rand) error {
 }
 
 func loadDump(dir string, onlysn bool) (tx *obitax.Taxonomy, loaded int, problem string) {
-	problem = guarded(func() {
+	problem = guarded14(func() {
 		t, err := ncbitaxdump.LoadNCBITaxDump(dir, onlysn)
 		if err != nil {
 			panic(err)
@@ -338,7 +338,7 @@ func ask(tx *obitax.Taxonomy, q *query) {
 	q.Res, q.S = []int{}, []string{}
 	run := protected
 	if c14MayFatal[q.Op] {
-		run = guarded
+		run = guarded14
 	}
 	q.Err = run(func() {
 		switch q.Op {
